@@ -2,6 +2,7 @@
 (* spec -> code: search expressions (named constructors, any_of nested up to two deep, & chains up to
    three, paging) and batching cases chosen by TLC, replayed on the real BugQuery.               *)
 EXTENDS BugQuery, Json, IOUtils
+CONSTANT BatchLen        \* longest value list of a batching case
 ECtor(name, args) == [e |-> "ctor", name |-> name, args |-> args, subs |-> <<>>, limit |-> 0, offset |-> 0]
 EAnd(a, b)        == [e |-> "and", name |-> "", args |-> <<>>, subs |-> <<a, b>>, limit |-> 0, offset |-> 0]
 EAnyOf(s)         == [e |-> "anyof", name |-> "", args |-> <<>>, subs |-> s, limit |-> 0, offset |-> 0]
@@ -38,7 +39,7 @@ Exprs == LeafS \cup LeafC \cup Any1 \cup Any2 \cup AnyBad
 \* batching: which axis, how many digits each id / how long each atom, what rides along, the slack
 \* left for the values (the driver turns it into max_length)
 BatchCases == {[kind |-> "batch", expr |-> ECtor("ids", <<>>), axis |-> ax, sizes |-> sz, ride |-> r, slack |-> sl] :
-                 ax \in {"id", "pkg"}, sz \in BoundedSeq(1..3, 4), r \in 0..2, sl \in {0, 3, 6, 9, 12, 18}}
+                 ax \in {"id", "pkg"}, sz \in BoundedSeq(1..3, BatchLen), r \in 0..2, sl \in {0, 3, 6, 9, 12, 18}}
 Cases == {[kind |-> "render", expr |-> x, axis |-> "", sizes |-> <<>>, ride |-> 0, slack |-> 0] : x \in Exprs} \cup BatchCases
 ASSUME ndJsonSerialize(IOEnv.OUT, SetToSeq(Cases))
 =========================================================================
